@@ -19,6 +19,7 @@ RULE = ("Hypothesis draws a smooth tomogram (16..40 per side, non-cubic, numpy o
         "reproduce the tomogram block; out-of-bound behaviour (finite fill / SubvolumeOutOfBoundError) and the "
         "four loading routes are checked. Non-trivial = a compared voxel with a non-identity rotation or fractional "
         "position, or a boundary/outside class.")
+RULE += (" " + 'Also: tomogram dtypes float16 (incl. values near the top of its range), float32 and float64.')
 TOLERANCES = {"order0": "exact (voxels within 1e-3 of a rounding tie skipped)", "order1": "1e-4 * range",
               "order3": "2e-2 * range, compared >= 3 voxels inside the tomogram (prefilter of the cropped window)",
               "exact block": "1e-5 * range for every order"}
